@@ -28,6 +28,12 @@ def templates(ctx):
         ('dt', [b'2021-03-04T', k]), ('dt2', [b'2021-03-04T05:06:07', k]), ('dt3', [b'2021-03-04T05:06:07Z', k]),
         ('dt4', [b'2021-03-04T05:06:07-05:00 ', k]),
         ('lit', [b'N', k]), ('lit2', [b'IN', k]),
+        # long tokens: more digits / characters than any fixed-size buffer or machine integer a decoder might use
+        ('long-time-frac', [b'12:00:00.012345678901', 1]), ('long-dt-frac', [b'2021-03-04T05:06:07.0123456789012', 1, b'Z']),
+        ('long-num', [b'123456789012345678901234567890', 1]), ('long-num-frac', [b'0.123456789012345678901234567890', 1]),
+        ('long-exp', [b'1e40', 1]), ('long-exp-neg', [b'1e-40', 1]), ('long-year', [b'12345-01-0', 1]), ('long-date-digits', [b'2021-003-0', 1]),
+        ('long-coord', [b'C(12.3456789012345678901234,-0.00000000000000000000001', 1]), ('long-ref', [b'@' + b'a' * 70, 1]),
+        ('long-unit', [b'1' + b'x' * 40, 1]), ('long-zone', [b'2021-03-04T05:06:07+00:00 ' + b'A' * 50, 1]), ('long-hex', [b'"\\u00000000', 1]),
     ]
     for name, parts in sk:
         T.append({'name': 'sk-' + name, 'parts': parts, 'core': False})
